@@ -202,6 +202,8 @@ func (r *rewriter) rewrite() (bool, error) {
 	chanRange := map[*ast.RangeStmt]bool{}
 	closeCall := map[*ast.CallExpr]bool{}
 	sleepCall := map[*ast.CallExpr]bool{}
+	lenCall := map[*ast.CallExpr]bool{}
+	afterCall := map[*ast.CallExpr]bool{}
 	shuffleCall := map[*ast.CallExpr]bool{}
 	ast.Inspect(r.file, func(n ast.Node) bool {
 		switch x := n.(type) {
@@ -224,7 +226,7 @@ func (r *rewriter) rewrite() (bool, error) {
 					case "len", "cap":
 						if t := r.info.TypeOf(x.Args[0]); t != nil {
 							if _, isCh := t.Underlying().(*types.Chan); isCh && b.Name() == "len" {
-								r.fail(x, "len(channel) is not supported by the instrumenter")
+								lenCall[x] = true
 							}
 						}
 					}
@@ -237,7 +239,9 @@ func (r *rewriter) rewrite() (bool, error) {
 						sleepCall[x] = true
 					case "math/rand.Shuffle":
 						shuffleCall[x] = true
-					case "reflect.Select", "time.After", "time.NewTimer", "time.Tick", "time.NewTicker", "time.AfterFunc":
+					case "time.After":
+						afterCall[x] = true
+					case "reflect.Select", "time.NewTimer", "time.Tick", "time.NewTicker", "time.AfterFunc":
 						r.fail(x, "%s is not supported by the instrumenter", full)
 					}
 				}
@@ -245,7 +249,7 @@ func (r *rewriter) rewrite() (bool, error) {
 		case *ast.SelectorExpr:
 			if tn, ok := r.info.Uses[x.Sel].(*types.TypeName); ok && tn.Pkg() != nil && tn.Pkg().Path() == "sync" {
 				switch tn.Name() {
-				case "RWMutex", "Mutex", "WaitGroup", "Once", "Map", "Pool", "Locker":
+				case "RWMutex", "Mutex", "WaitGroup", "Once", "Map", "Pool", "Locker", "Cond":
 				default:
 					r.fail(x, "sync.%s is not supported by the instrumenter", tn.Name())
 				}
@@ -308,6 +312,12 @@ func (r *rewriter) rewrite() (bool, error) {
 				r.needRT, r.changed = true, true
 			case sleepCall[x]:
 				x.Fun = rtSel("Sleep")
+				r.needRT, r.changed = true, true
+			case lenCall[x]:
+				x.Fun = rtSel("ChanLen") // len(ch): the number of buffered messages in the scheduler's model
+				r.needRT, r.changed = true, true
+			case afterCall[x]:
+				x.Fun = rtSel("After") // time.After(d): a channel fed by a thread that sleeps d of virtual time
 				r.needRT, r.changed = true, true
 			case shuffleCall[x]:
 				x.Fun = rtSel("Shuffle")
